@@ -46,6 +46,8 @@ def mon (st : St) (op : List String) (outs : List (List String)) : St × List St
     -- bookkeeping
     let st1 : St := match op with
       | ["task", id, pool, _] => { st with tasks := st.tasks ++ [id], budget := bump st.budget pool 1, hadTask := true }
+      -- a task whose change of destination loses the miner (it hangs up on the first line of the re-send)
+      | ["taskx", id, pool, _] => { st with tasks := st.tasks ++ [id], budget := bump st.budget pool 1, hadTask := true }
       | "poolclose" :: pool :: _ => { st with budget := bump st.budget pool 1 }
       | _ => st
     let newDials := outs.filterMap fun o => match o with
@@ -104,6 +106,7 @@ def mon (st : St) (op : List String) (outs : List (List String)) : St × List St
     let explained : Bool := match op with
       | "poolclose" :: _ => true
       | ["minerclose"] => true
+      | "taskx" :: _ => true
       | ["shutdown"] => true
       | _ => nowExited || switched || failed ||
              decide (st4.sinceTraffic + 1000 ≥ st.idleMs) || decide (st4.sinceMiner + 1000 ≥ st.idleMs) || !newDials.isEmpty
